@@ -82,6 +82,28 @@ QUICK_QUERY_CAP = 660     # seconds: per-query solver cap in the quick tier
 QUICK_DEADLINE = 780      # seconds: no quick check runs longer than this (queries still waiting are listed as not run)
 
 
+def _kill_own_cbmc():
+    """Stop the cbmc processes started by THIS check (descendants of this process) - never those of another check running beside it."""
+    me = os.getpid()
+    out = subprocess.run(["pgrep", "-x", "cbmc"], capture_output=True, text=True).stdout.split()
+    for pid in out:
+        cur = pid
+        for _ in range(12):
+            try:
+                cur = open("/proc/%s/stat" % cur).read().rsplit(")", 1)[1].split()[1]
+            except (OSError, IndexError):
+                break
+            if cur == str(me):
+                try:
+                    os.kill(int(pid), 15)
+                except OSError:
+                    pass
+                break
+            if cur in ("0", "1"):
+                break
+
+
+
 def run_plan(res, queries, workers=8, mem_budget_gb=56, logdir=None):
     """Run Kani queries over parallel lanes under a total memory budget. In the quick tier every query is capped and the
     whole plan has a deadline, so that the check stays a check one runs on every change."""
@@ -143,7 +165,7 @@ def run_plan(res, queries, workers=8, mem_budget_gb=56, logdir=None):
                 if res.violations:
                     stop["flag"] = True
                     # stop the queries still running: their verdict is no longer needed
-                    subprocess.run("pgrep -x cbmc | xargs -r kill", shell=True)
+                    _kill_own_cbmc()
         with lock:
             results.append(r)
         sys.stderr.write("[%s] %-40s %-12s %6.1fs vars=%s clauses=%s %s\n" % (
